@@ -277,7 +277,7 @@ def factory(ctx: Ctx):
     for o in v.objs:
         reads |= ctx.flow.member_val(o, "baseline").reads
     labels = data_labels(reads)
-    ctx.ob("baseline-provenance", f"{LY.MCM}::CubeMeasures.unconditional_cube_counts.baseline", sorted(labels), "['W*']", labels == {"W*"}, "only counts-with-missings feed the baseline")
+    ctx.ob("baseline-provenance", f"{LY.MCM}::CubeMeasures.unconditional_cube_counts.baseline", sorted(labels), "['W*']", (labels == {"W*"}) if labels else None, "only counts-with-missings feed the baseline")
     ctx.ob("baseline-independence", f"{LY.MCM}::CubeMeasures.unconditional_cube_counts.baseline", sorted(transform_reads(reads)), "[]", not transform_reads(reads), "hiding / pruning / ordering plays no part in who is eligible")
 
 
@@ -373,7 +373,7 @@ def independence(ctx: Ctx):
     som = slice_measures_obj(ctx)
     reads = measure_blocks_reads(ctx, som, "column_index")
     labels = data_labels(reads)
-    ctx.ob("index-provenance", f"{MM}::SecondOrderMeasures.column_index", sorted(labels), "['W', 'W*']", labels == {"W", "W*"})
+    ctx.ob("index-provenance", f"{MM}::SecondOrderMeasures.column_index", sorted(labels), "['W', 'W*']", (labels == {"W", "W*"}) if labels else None)
 
 
 def no_explicit_nan(ctx: Ctx):
